@@ -216,7 +216,8 @@ def c14(out):
     out.rule = ("twin histories: H = generated history on a CTR or parallel-ECB object (all states: zeroed, fresh, keyed, mid-block, mid-batch, cleaned up, re-initialised) with 1..6 invalid calls injected "
                 "(NULL object, NULL key, key/tweak/counter lengths out of range incl. huge with short guarded buffers, bad Mantis rounds, sizes not a multiple of the block, NULL data pointers, use after cleanup), "
                 "H' = H without them; each on every back end; invalid calls must return 0, valid calls 1, and the transcripts of the valid calls must be identical. Plus the plain key-schedule functions "
-                "(set_key / set_tweaked_key / set_tweak / mantis_set_key / mantis_set_tweak) with invalid arguments on keyed schedules: return 0, documented fields and later outputs unchanged.")
+                "(set_key / set_tweaked_key / set_tweak / mantis_set_key / mantis_set_tweak) with invalid arguments on keyed schedules: return 0, documented fields and later outputs unchanged. "
+                "Plus objects whose init failed because an allocation request was made to fail (allocator monitor, every request x back end x six prior handle contents): every later call must return 0 without faulting.")
     v = [("prod", n(out, 4500, 200000)), ("asan", n(out, 900, 30000))]
     if out.tier == "thorough":
         v += [("clang", 40000), ("msan", 9000), ("prod+W32", 20000)]
@@ -227,6 +228,9 @@ def c14(out):
         run_sharded(out, exe, ["--prop", "C14", "--mode", "twin"], vname, cases, label="par")
         exe = build_driver("drv_keys", ["drv_keys.c"] + HIST, vname)
         run_sharded(out, exe, ["--prop", "C14", "--mode", "c14"], vname, cases * 4, label="keys")
+    # objects whose init failed (allocation fault injected through the allocator monitor): every later call returns 0 and touches nothing
+    exe = build_driver("drv_life", ["drv_life.c", "allocmon.c"] + HIST, "prod", extra=WRAP)
+    run_sharded(out, exe, ["--prop", "C14", "--mode", "c16"], "prod", n(out, 108, 108 * 20), label="failed-init")
     out.assumptions += ["'unchanged' = all later results identical to the twin history (the property's own definition)",
                         "behaviour of void functions on NULL and NULL data pointers of parallel functions are not asserted (not promised)"]
 
@@ -628,6 +632,9 @@ def c18(out):
         out.inconclusive.append({"reason": "ThreadSanitizer positive control did not report the deliberate race"})
     _thr_run(out, exe, "tsan", n(out, 192, 6000), "tsan")
     _thr_first_init(out, exe, "tsan", n(out, 48, 600))
+    # gcc expands small memcpy/memset inline after the TSan pass; with -fno-builtin they stay calls that the TSan runtime intercepts
+    exe = build_driver("drv_thr", ["drv_thr.c"] + HIST, "tsan+NOBUILTIN", libs=["-pthread"])
+    _thr_run(out, exe, "tsan+NOBUILTIN", n(out, 96, 2000), "tsan")
     if out.tier == "thorough":
         exe = build_driver("drv_thr", ["drv_thr.c"] + HIST, "tsanclang", libs=["-pthread"])
         _thr_run(out, exe, "tsanclang", 3000, "tsan")
